@@ -394,6 +394,15 @@ theorem RangeX.close {d0 : DS} {sepr : Bool} {kids : F} {d : DS} (h : RangeX d0 
 theorem Range.setWf {d : DS} {r : R} (h : Range d r) (b : Bool) : Range d { r with wf := b } :=
   ⟨h.tickLe, h.nuLe, h.ticks, h.uu, h.uun⟩
 
+theorem Range.setOutWf {d : DS} {r : R} (h : Range d r) (o : Outcome) (b : Bool) : Range d { r with out := o, wf := b } :=
+  ⟨h.tickLe, h.nuLe, h.ticks, h.uu, h.uun⟩
+
+/-- one more message of the open action -/
+theorem RangeX.leaf {d0 : DS} {sepr : Bool} {kids : F} {d : DS} (h : RangeX d0 sepr kids d) (ms : MSpec) :
+    RangeX d0 sepr (kids.append (.own (.leaf d.tick ms) .nil)) { tick := d.tick + 1, nu := d.nu, ex := d.ex } := by
+  have := h.seq (Range.leaf false d [] ms)
+  simpa [leafR] using this
+
 /-- only the clock and uuid counters matter -/
 theorem Range.congr {d d' : DS} {r : R} (h : Range d' r) (ht : d'.tick = d.tick) (hn : d'.nu = d.nu) : Range d r :=
   ⟨ht ▸ h.tickLe, hn ▸ h.nuLe, ht ▸ h.ticks, hn ▸ h.uu, h.uun⟩
@@ -528,11 +537,36 @@ theorem denX_range (env : Env) (cur : Option Exc) (inAct : Bool) (x : Nat) (sepr
     | raise k => simp only [denX]; exact Range.nil d0 _ s _
     | tryCatch body handler => simp only [denX]; exact Range.nil d0 _ s _
     | writeTraceback => simp only [denX]; exact Range.nil d0 _ s _
-    | addSuccess z fs => simp only [denX]; exact Range.nil d0 _ s _
+    | addSuccess z fs =>
+      cases z with
+      | none => simp only [denX]; exact Range.nil d0 _ s _
+      | some y =>
+        by_cases hy : y = x
+        · subst hy
+          rw [denX_addSucc]
+          exact denX_range env cur inAct y sepr sp d0 s rest _ _ _ h
+        · simp only [denX, if_neg hy]; exact Range.nil d0 _ s _
     | probe k => simp only [denX]; exact Range.nil d0 _ s _
     | startAs z task sp' => simp only [denX]; exact Range.nil d0 _ s _
-    | withHandle z body => simp only [denX]; exact Range.nil d0 _ s _
-    | logTo z ms => simp only [denX]; exact Range.nil d0 _ s _
+    | withHandle y body =>
+      by_cases hy : y = x
+      · subst hy
+        rw [denX_with]
+        have ih := denB_range env cur true body d sx
+        have hc : Range d0 (closeW env sepr sp d0 s kids (denB env cur true body d sx)) :=
+          ((h.seq ih).close env sp s _ _).setOutWf _ _
+        have hco : (closeW env sepr sp d0 s kids (denB env cur true body d sx)).out = (denB env cur true body d sx).out := rfl
+        cases ho : (denB env cur true body d sx).out with
+        | ok => simp only [hco, ho]; exact Range.seq hc (denB_range env cur inAct rest _ _) _
+        | stuck => simp only [hco, ho]; exact hc
+        | raised e => simp only [hco, ho]; exact hc
+      · simp only [denX, if_neg hy]; exact Range.nil d0 _ s _
+    | logTo y ms =>
+      by_cases hy : y = x
+      · subst hy
+        rw [denX_logTo]
+        exact (denX_range env cur inAct y sepr sp d0 s rest _ _ _ (h.leaf ms)).setWf _
+      · simp only [denX, if_neg hy]; exact Range.nil d0 _ s _
     | serializeAs z z' => simp only [denX]; exact Range.nil d0 _ s _
     | continueWith z sp' body => simp only [denX]; exact Range.nil d0 _ s _
     | addDests l => simp only [denX]; exact Range.nil d0 _ s _
@@ -620,11 +654,18 @@ theorem Block.structuredX_noCfg (a b : Bool) (x : Nat) : ∀ bl : Block, bl.stru
   | .cons (.raise ..) _, h => by simp [Block.structuredX] at h
   | .cons (.tryCatch ..) _, h => by simp [Block.structuredX] at h
   | .cons .writeTraceback _, h => by simp [Block.structuredX] at h
-  | .cons (.addSuccess ..) _, h => by simp [Block.structuredX] at h
+  | .cons (.addSuccess none _) _, h => by simp [Block.structuredX] at h
+  | .cons (.addSuccess (some y) _) r, h => by
+    simp only [Block.structuredX, Bool.and_eq_true] at h
+    simp [Block.noCfg, Stmt.noCfg, Block.structuredX_noCfg a b x r h.2]
   | .cons (.probe ..) _, h => by simp [Block.structuredX] at h
   | .cons (.startAs ..) _, h => by simp [Block.structuredX] at h
-  | .cons (.withHandle ..) _, h => by simp [Block.structuredX] at h
-  | .cons (.logTo ..) _, h => by simp [Block.structuredX] at h
+  | .cons (.withHandle y body) r, h => by
+    simp only [Block.structuredX, Bool.and_eq_true] at h
+    simp [Block.noCfg, Stmt.noCfg, Block.structured_noCfg a true body h.1.2, Block.structured_noCfg a b r h.2]
+  | .cons (.logTo y _) r, h => by
+    simp only [Block.structuredX, Bool.and_eq_true] at h
+    simp [Block.noCfg, Stmt.noCfg, Block.structuredX_noCfg a b x r h.2]
   | .cons (.serializeAs ..) _, h => by simp [Block.structuredX] at h
   | .cons (.continueWith ..) _, h => by simp [Block.structuredX] at h
   | .cons (.addDests ..) _, h => by simp [Block.structuredX] at h
